@@ -70,9 +70,12 @@ var parserWorkReceiveChannel = func() chan<- jobIn {
 
 					out.record = NewRecord(values, false, time.Time{})
 				}
+				verifTrace("take", verifLine0(job.lines), len(job.lines))
 				select {
 				case job.outChan <- outJobs:
+					verifTrace("send", verifLine0(job.lines))
 				case <-job.ctx.Done():
+					verifTrace("drop", verifLine0(job.lines))
 					continue getWorkLoop
 				}
 			}
